@@ -608,6 +608,16 @@ fn mk_tiny(sc: &TScript) -> Result<Box<dyn Tiny>, String> {
             t.verif_reseed(sc.seeds);
             Ok(Box::new(t))
         }
+        3 => {
+            // the other builder entry point: new(size, samples) + set_key_hasher
+            let mut t = TinyLFUBuilder::<u64>::new(sc.size, sc.samples)
+                .set_key_hasher(DynKH(DynBH::new(HKind::Ident)))
+                .set_false_positive_ratio(fpr)
+                .finalize()
+                .map_err(|e| format!("{:?}", e))?;
+            t.verif_reseed(sc.seeds);
+            Ok(Box::new(t))
+        }
         c => {
             let kh = DynKH(DynBH::new(if c == 2 { HKind::Zero } else { HKind::Ident }));
             let mut t = TinyLFUBuilder::<u64, DynKH>::with_hasher(kh)
@@ -727,7 +737,7 @@ pub fn run_tiny(sc: &TScript, cov: &mut Cov) -> Option<(String, String, usize)> 
                 if m.ever.len() == 1 && m.ever.contains(h) && e != lb {
                     return Some(("not-exact-single-key".into(), format!("only hash {} was ever recorded; estimate {} but exact aged count {}", h, e, lb)));
                 }
-                if keyed && sc.ctor == 0 && real.est_k(*h) != e {
+                if keyed && (sc.ctor == 0 || sc.ctor == 3) && real.est_k(*h) != e {
                     return Some(("key-vs-hash-api".into(), format!("estimate(&{}) = {} but estimate_hashed_key({}) = {} under the identity key hasher", h, real.est_k(*h), h, e)));
                 }
             }
@@ -765,7 +775,7 @@ fn gen_tiny(rng: &mut Rng) -> TScript {
     let size = *rng.pick(&[1usize, 2, 3, 4, 8, 64, 1000]);
     let samples = *rng.pick(&[1usize, 2, 3, 4, 10, 100, 40]);
     let fpr: f64 = *rng.pick(&[1e-6, 0.01, 0.5, 0.99]);
-    let ctor = *rng.pick(&[0u8, 0, 0, 1, 2]);
+    let ctor = *rng.pick(&[0u8, 0, 3, 1, 2]);
     let special = [0u64, 1, (1 << 32) - 1, 1 << 32, (1 << 32) + 1, 1 << 63, u64::MAX, u64::MAX - 1];
     let mask = (size as u64).next_power_of_two().max(2);
     let nk = rng.range(1, 5) as usize;
